@@ -13,9 +13,9 @@ import (
 // Listed findings (see /verif/known_findings.d/C16.txt). While a key is listed
 // as "known" the generator leaves out exactly the input class that triggers it.
 const (
-	keyDryRunDedup  = "C16-dryrun-dedup-not-applied"    // duplicates are only removed from the bookkeeping with -force
-	keyShardDropped = "C16-across-racks-shard-dropped"  // pickNEcShardsToMoveFrom deletes shards before a destination exists
-	keyRackNoFree   = "C16-rack-balance-no-free-slot"   // doBalanceEcRack never looks at the target's free slots
+	keyDryRunDedup  = "C16-dryrun-dedup-not-applied"   // duplicates are only removed from the bookkeeping with -force
+	keyShardDropped = "C16-across-racks-shard-dropped" // pickNEcShardsToMoveFrom deletes shards before a destination exists
+	keyRackNoFree   = "C16-rack-balance-no-free-slot"  // doBalanceEcRack never looks at the target's free slots
 )
 
 const ampleVolumes = 100 // +1000 shard slots: more than every shard of the layout
